@@ -167,7 +167,7 @@ PROPS = {
         engines=[dict(engine="ctl", pkg="pkg/workceptor", test="TestVerifCtl", n_quick=120, n_thorough=1200),
                  dict(engine="accept", pkg="pkg/controlsvc", test="TestVerifAccept", n_quick=3, n_thorough=12, shardable=False)],
         corr_ops={"ctl": ["sessions"], "accept": ["silent"]},
-        facts=["ctl_status_fields_checked", "ctl_findunit_rescan_unlocked", "ctl_reload_serialised", "lock_from", "lock_to", "lock_at", "ctl_reader", "ctl_dispatch", "ctl_msgs", "ctl_table", "lock_edge_sites", "ctl_accept_loop"],
+        facts=["ctl_status_fields_checked", "ctl_findunit_rescan_unlocked", "ctl_reload_serialised", "lock_from", "lock_to", "lock_at", "ctl_reader", "ctl_dispatch", "ctl_msgs", "ctl_table", "lock_edge_sites", "ctl_accept_loop", "lock_leaks"],
         trusted=["encoding/json (text -> value) is an oracle: the decoding of every JSON request line is supplied by the harness and "
                  "universally quantified in the theorems",
                  "ControlFunc of ping / traceroute / connect / reload is exercised against a stub Netceptor (no mesh): their answers are "
